@@ -105,6 +105,11 @@ func (h *clientConnectionHandler) onConnectionAccepted(connection *CqlServerConn
 		log.Trace().Msgf("%v: client accepted: %v", h, connection.conn.RemoteAddr())
 		h.connectionsLock.Lock()
 		defer h.connectionsLock.Unlock()
+		// re-check under the lock: close sets the flag first and sets anyConnChan to nil under this lock; a send on
+		// the nil channel would block forever with the lock held, and CqlServer.Close would never return
+		if h.isClosed() {
+			return fmt.Errorf("%v: handler closed", h)
+		}
 		holder, found := h.connections[clientAddr]
 		if found {
 			holder.conn = connection
